@@ -2259,10 +2259,17 @@ class Power(Array):
     def _power(self, n):
         if self.dtype == complex or n.dtype == complex:
             return
+        p = self.power._const_uniform
+        if p is None:
+            # Whether (func**p)**n equals func**(p*n) or abs(func)**(p*n) for
+            # negative func depends on the evenness of p, which is unknown.
+            return
         func = self.func
         newpower = multiply(self.power, n)
-        if iszero(self.power % astype(2, self.power.dtype)) and not iszero(newpower % astype(2, newpower.dtype)):
-            func = abs(func)
+        if p % 2 == 0:
+            q = n._const_uniform
+            if q is None or (p * q) % 2 != 0:
+                func = abs(func)
         return Power(func, newpower)
 
     def _takediag(self, axis1, axis2):
